@@ -81,7 +81,10 @@ class PolyBuilder:
             if r is not None:
                 return r
         if isinstance(node, ast.Name):
-            return patom(self.rename.get(node.id, node.id))
+            v = self.rename.get(node.id, node.id)
+            if isinstance(v, int) and not isinstance(v, bool):
+                return pconst(Fr(v))       # a name known to hold this constant on the path considered
+            return patom(v)
         return patom(" ".join(ast.unparse(node).split()))
 
     def poly(self, node):
